@@ -121,7 +121,13 @@ func evalHeader(h []byte, allow bool, res *ev.Result, lc *local) {
 		}
 		return
 	}
-	// rejected outright (err != nil, n == 0): legitimate only for headers no encodable request can have
+	// rejected outright (err != nil, n == 0): legitimate only for headers no encodable request can have - and not for a
+	// frame with an unsupported function code (any code but 0 that is not one of the ten), which must be "classified as
+	// such": delimited by its length field so that the stream can be resynchronised behind it
+	if fc != 0 && !spec.Supported(fc) && length >= 3 {
+		res.Violate(ev.Violation{Check: "header", Kind: "unsupported-fc-not-classified", Attrs: attrs, Msg: fmt.Sprintf("header %s (unsupported function %d, length %d) was rejected as not Modbus (%v) instead of being classified as an unsupported function with expected length %d", ev.Hex(h), fc, length, err, 6+length), Case: mk()})
+		return
+	}
 	if length >= 2 && spec.Supported(fc) && couldBeRequest(fc, length) {
 		res.Violate(ev.Violation{Check: "header", Kind: "rejects-encodable-header", Attrs: attrs, Msg: fmt.Sprintf("header %s (fc %d, length %d) is the header of an encodable request but was rejected: %v", ev.Hex(h), fc, length, err), Case: mk()})
 	}
